@@ -45,6 +45,7 @@ TOne ==
            m == QualifyOneFlip(e.l, e.r, e.n, e.rep, e.tg, e.ap, e.rcs, e.gcs, e.u10, e.u11)
        IN IF ~OneInDomain(e) THEN Note({"Concretisation"})
           ELSE Note(If(OneGradeConsistent(e.rep, e.rcs, e.u11, o), "GradeConsistent")
+                    \cup If(OneReportHonoured(e.rep, e.rcs, o), "ReportHonoured")
                     \cup If(OneAnswerBacked(e.l, e.r, e.n, o), "AnswerBacked")
                     \cup If(OneConsensusHonoured(e.l, e.r, e.n, o), "ConsensusHonoured")
                     \cup If(o = [st |-> m.st, an |-> m.an, gr |-> m.gr, gs |-> Micro(m.gsn, m.gsd)], "drift:table"))
@@ -64,7 +65,9 @@ TFlips ==
                Note(If(PopOnlyAssigned(P, o) /\ e.o.xf = 0, "OnlyAssigned")
                     \cup If(PopReportLimit(P, o), "ReportLimit")
                     \cup If(PopRewardOnlyReported(P, o), "RewardOnlyReported")
+                    \cup If(PopReportersRewarded(P, o), "ReportersRewarded")
                     \cup If(PopGradeConsistent(P, o), "GradeConsistent")
+                    \cup If(PopReportHonoured(P, o), "ReportHonoured")
                     \cup If(PopAnswerBacked(P, o), "AnswerBacked")
                     \cup If(PopConsensusHonoured(P, o), "ConsensusHonoured")
                     \cup If(e.o.bk = 1, "BookConsistent")
@@ -130,14 +133,9 @@ TBook ==
                 ELSE BookSetResult(book, e.r, e.ok, e.st, e.missed, e.af, e.any)
        IN /\ Note(If(/\ BookConsistent(B) /\ e.ef = <<>> /\ e.ptr
                      /\ \A i \in 1..Len(e.bf) : e.bf[i][2] \in DOMAIN B.ba /\ e.bf[i][3] = B.ba[e.bf[i][2]], "BookConsistent")
-                  \* what the operation promises, whatever else it does
-                  \cup If(/\ e.op = "delf" => ~\E p \in B.bf : p[1] = e.f
-                          /\ (e.op = "delr" \/ (e.op = "res" /\ ~e.ok)) => (e.r \notin DOMAIN B.ba /\ ~\E p \in B.bf : p[2] = e.r)
-                          /\ (e.op = "res" /\ e.ok /\ e.r \in DOMAIN B.ba) => B.ba[e.r] = e.st
-                          /\ (e.op = "res" /\ e.missed /\ ~e.any) => \A i \in 1..Len(e.af) : ~\E p \in B.bf : p[1] = e.af[i]
-                          /\ e.op = "add" => (<<e.f, e.r>> \in B.bf /\ e.r \in DOMAIN B.ba)
-                          \* nothing appears that was not there, except what an add adds
-                          /\ B.bf \subseteq book.bf \cup (IF e.op = "add" THEN {<<e.f, e.r>>} ELSE {}), "BookOperation")
+                  \* the published map after the operation is what the method's contract says, and a result that was set is shown
+                  \cup If(/\ B.bf = m.bf
+                          /\ (e.op = "res" /\ e.ok /\ e.r \in DOMAIN B.ba) => B.ba[e.r] = e.st, "BookOperation")
                   \cup If(SameBook(B, m) /\ e.cf = Cardinality({p \in B.bf : p[1] = e.f}) /\ e.cr = Cardinality({p \in B.bf : p[2] = e.r}), "drift:book"))
           /\ book' = B
     /\ UNCHANGED <<bfl, bcd>>
